@@ -161,3 +161,8 @@ def ctx_frame(ctx, old_ctx):
         'frame_ctx_env': same_env(ctx.env, old_ctx.env),
         'frame_ctx_within_call': ctx.within_call == old_ctx.within_call,
     }
+
+
+def rctx_frame(ctx, old_ctx):
+    """the reachability visitor's context object is not written to"""
+    return {'frame_ctx_is_reachable': ctx.is_reachable == old_ctx.is_reachable}
